@@ -127,6 +127,11 @@ Step ==
      THEN \* C16 with two samples racing: once both have returned, the last value delivered equals the estimate
           /\ UNCHANGED <<ok, cfg, st>>
           /\ e.last # e.est => Rej(e, "notify", "two concurrent samples: the last value delivered to the listener differs from EstimatedLimit", [est |-> e.est, last |-> e.last])
+     ELSE IF e.ev = "Registered"
+     THEN \* C16, "any number of listeners registered at any point": eight registrations made at the same instant, then a change -
+          \* in no round may a listener have gone untold
+          /\ UNCHANGED <<ok, cfg, st>>
+          /\ e.lost > 0 => Rej(e, "notify", "listeners registered at the same instant: in some rounds one of them was never told of the next change", [rounds |-> e.rounds, lost |-> e.lost])
      ELSE IF e.ev = "Inside"
      THEN \* C16, seen from inside the notification: a listener that reads the estimate back while it is being told (possible
           \* for the settable limit, whose estimate is read without its mutex, bare or behind a wrapper) reads the value it was given
